@@ -543,7 +543,8 @@ def run_chains(ctx, r, drv=None):
     seconds = ["'", ":~", "\\~", "@'"]
     verbs = ["+", "-", "*", ",", "&", "{x-y}", "{x,y}"]
     operands = [U.from_py(x) for x in ([1, 2, 3, 4], [[1, 2, 3], [4, 5, 6], [7, 8, 9]], [[1, 2], [3, 4]],
-                                       [[5], [6, 7]], [3])]
+                                       [[5], [6, 7]], [3], [[[1, 2], [3, 4]], [[5, 6], [7, 8]]],
+                                       [[[1, 2, 3]], [[4, 5, 6]]])]
     for a1, a2, verb, a in itertools.product(firsts, seconds, verbs, operands):
         if a1 == "'" and verb not in ("-",):       # Each needs a monad
             continue
